@@ -142,7 +142,7 @@ def view_shows(view, raw, path, k):
             'Body.__init__', 'Body.metadata', 'Body.meta', 'Body.spec', 'Body.status', 'Meta.__init__', 'Meta.labels',
             'Meta.annotations', 'Meta.uid', 'Meta.name', 'Meta.namespace', 'Meta.creation_timestamp',
             'Meta.deletion_timestamp', 'Spec.__init__', 'Status.__init__')],
-         props=['C15', 'C05', 'C09'],
+         props=['C15', 'C05', 'C09', 'C04', 'C06', 'C07', 'C08', 'C16', 'C18'],
          clauses=['stanza_views', 'identity_fields', 'live'], canaries=['canary.uid_always_present'],
          trusted=['dicts.MappingView/ReplaceableMappingView/resolve run as real code (inlined): a view (src, path) reads src[path...] on every access'])
 def KC9(vc):
@@ -367,7 +367,7 @@ def KC12(vc):
 
 
 # =============================================================================================== queueing.get_version
-@harness('KC13', targets='kopf._core.reactor.queueing.get_version', props=['C07', 'C01'],
+@harness('KC13', targets='kopf._core.reactor.queueing.get_version', props=['C07', 'C01', 'C02', 'C03', 'C05', 'C06', 'C11', 'C14'],
          clauses=['total', 'version_of_the_event', 'none_for_end_of_stream', 'pure'], canaries=['canary.always_versioned'])
 def KC13(vc):
     """
@@ -412,7 +412,7 @@ def passed_through(cause, given):
     return all(getattr(cause, name, None) is value for name, value in given.items())
 
 
-@harness('KC1', targets=[f'{CAUSES}.detect_watching_cause', f'{CAUSES}.detect_spawning_cause'], props=['C05', 'C15', 'C09', 'C10'],
+@harness('KC1', targets=[f'{CAUSES}.detect_watching_cause', f'{CAUSES}.detect_spawning_cause'], props=['C05', 'C15', 'C09', 'C10', 'C06'],
          clauses=['total', 'kind_of_cause', 'event_and_type', 'reset_flag', 'passes_through', 'pure'],
          canaries=['canary.type_is_always_added', 'canary.never_reset'])
 def KC1(vc):
@@ -453,7 +453,7 @@ def spec_ongoing(raw):
     return bool(present) and v is not None
 
 
-@harness('KC2', targets=f'{CAUSES}.ChangingCause.deleted', props=['C05', 'C14', 'C15'],
+@harness('KC2', targets=f'{CAUSES}.ChangingCause.deleted', props=['C05', 'C14', 'C15', 'C06'],
          clauses=['total', 'deleted_iff_marked_for_deletion', 'pure'], canaries=['canary.never_deleted'],
          trusted=['bodies.Body (KC9) and finalizers.is_deletion_ongoing (K2: the same predicate) run as real code (inlined)'])
 def KC2(vc):
@@ -602,7 +602,7 @@ def parts_bound(kw, raw, skip=()):
 
 
 @harness('KC3', targets=[f'{EXECUTION}.Cause._kwargs', f'{CAUSES}.BaseCause._kwargs', f'{CAUSES}.BaseCause._super_kwargs'],
-         props=['C05', 'C15', 'C17', 'C09', 'C18'],
+         props=['C05', 'C15', 'C17', 'C09', 'C18', 'C04', 'C08', 'C10'],
          clauses=['total', 'every_record_offered', 'parent_kwargs_kept', 'no_global_indices_kwarg', 'each_index_under_its_name'],
          canaries=['canary.no_indices_declared'])
 def KC3(vc):
@@ -643,7 +643,7 @@ def KC3(vc):
     return (clsname, which, out)
 
 
-@harness('KC4', targets=f'{CAUSES}.ResourceCause._kwargs', props=['C15', 'C05', 'C09', 'C18', 'C17'],
+@harness('KC4', targets=f'{CAUSES}.ResourceCause._kwargs', props=['C15', 'C05', 'C09', 'C18', 'C17', 'C04', 'C08', 'C10'],
          clauses=['total', 'parent_kwargs_kept', 'body_parts_of_the_body_at_hand', 'views_are_live'],
          canaries=['canary.always_namespaced'],
          trusted=['bodies.Body and its views run as real code (inlined): contract KC9 (arbitrary JSON bodies)'],
@@ -677,7 +677,7 @@ def KC4(vc):
 
 
 @harness('KC5', targets=[f'{CAUSES}.WebhookCause._kwargs', f'{CAUSES}.SpawningCause._kwargs', f'{CAUSES}.ChangingCause._kwargs',
-                         f'{CAUSES}.DaemonCause._kwargs'], props=['C18', 'C09', 'C05', 'C15'],
+                         f'{CAUSES}.DaemonCause._kwargs'], props=['C18', 'C09', 'C05', 'C15', 'C04', 'C10', 'C14'],
          clauses=['total', 'parent_kwargs_kept', 'webhook_type_not_passed_as_reason'], canaries=['canary.nothing_hidden'])
 def KC5(vc):
     """
@@ -701,7 +701,7 @@ def KC5(vc):
     return (clsname, sorted(kw))
 
 
-@harness('KC6', targets=[f'{CAUSES}.DaemonCause._sync_kwargs', f'{CAUSES}.DaemonCause._async_kwargs'], props=['C09', 'C15'],
+@harness('KC6', targets=[f'{CAUSES}.DaemonCause._sync_kwargs', f'{CAUSES}.DaemonCause._async_kwargs'], props=['C09', 'C15', 'C06', 'C13'],
          clauses=['total', 'parent_kwargs_kept', 'stopped_is_the_waiter_of_its_kind'], canaries=['canary.sync_gets_the_async_waiter'])
 def KC6(vc):
     """
@@ -727,7 +727,7 @@ FLAVOURS = {'kwargs': '_kwargs', 'sync_kwargs': '_sync_kwargs', 'async_kwargs': 
 
 @harness('KC7', targets=[f'{INVOCATION}.Kwargable.{n}' for n in ('_kwargs', '_sync_kwargs', '_async_kwargs', '_super_kwargs',
                                                                   'kwargs', 'sync_kwargs', 'async_kwargs')],
-         props=['C15', 'C09', 'C11', 'C17', 'C18'],
+         props=['C15', 'C09', 'C11', 'C17', 'C18', 'C04', 'C08', 'C10'],
          clauses=['total', 'own_kwargs_of_the_asked_flavour', 'indices_win', 'defaults'], canaries=['canary.no_clash'])
 def KC7(vc):
     """
@@ -770,7 +770,7 @@ def KC7(vc):
 CONCRETE_CAUSES = ('ActivityCause', 'IndexingCause', 'WatchingCause', 'SpawningCause', 'ChangingCause', 'DaemonCause', 'WebhookCause')
 
 
-@harness('KC8', targets=[f'{INVOCATION}.Kwargable.{n}' for n in FLAVOURS], props=['C15', 'C05', 'C09', 'C18', 'C17', 'C11'],
+@harness('KC8', targets=[f'{INVOCATION}.Kwargable.{n}' for n in FLAVOURS], props=['C15', 'C05', 'C09', 'C18', 'C17', 'C11', 'C04', 'C08', 'C10'],
          clauses=['total', 'documented_kwargs', 'body_parts_of_the_body_at_hand', 'each_index_under_its_name_and_wins',
                   'stopped_for_daemons', 'not_for_this_kind'],
          canaries=['canary.framework_kwarg_never_shadowed', 'canary.never_stopped'],
@@ -871,7 +871,7 @@ def _wrap(kind, inner):
 LAYERS = ('partial', 'wrapper', 'async wrapper', 'awaiter')
 
 
-@harness('KC10', targets=f'{INVOCATION}.is_async_fn', props=['C11', 'C09', 'C20'],
+@harness('KC10', targets=f'{INVOCATION}.is_async_fn', props=['C11', 'C09', 'C20', 'C02', 'C10', 'C17', 'C18'],
          clauses=['total', 'none_is_not_async', 'plain_functions', 'partials_and_wrappers_are_transparent', 'awaitable_iff_async'],
          canaries=['canary.everything_is_sync', 'canary.never_recurses'],
          assumes=['handlers are functions, lambdas, bound methods, classes/builtins, or functools.partial objects / decorated '
